@@ -447,7 +447,8 @@ def call (s : St) : Call → Outcome
     -- fix 3448715, refined in round 3: `IceDisconnected` is the recoverable "cycling transport" state
     else if s.peer == .disconnected && s.reason.isSome && s.reason != some .iceDisconnected then .errNow
     else .pending
-  | .createDataChannel => .okNow
+  -- refused once the connection is Closed (round-4 fix; before, it registered a channel nothing would ever close)
+  | .createDataChannel => if s.peer == .closed then .errNow else .okNow
   | .dcRecv i => match s.chans[i]? with
     | some c => if c.senderDropped then .okNow else .pending
     | none => .errNow
